@@ -200,12 +200,31 @@ def parts(c, env=None):
 def inventory(facts):
     """one row per call of a structural operation (VERBS) inside a library class: the comparison literals known to hold when the
     call is reached (astu.reach: nested ifs, guard clauses, else branches, loop conditions, && chains all give the same literals)"""
-    from astu import reach_tagged, induction_locals
+    from astu import reach_tagged, induction_locals, inlined_body, stmts_of
     fns = functions_by(facts)
-    rows = {}
-    for pat, fn in sorted(fns.items()):
-        if not fn.get("rect") or fn.get("body") is None:
+    by_pat = {f["pat"]: f for f in fns.values()}
+    # statement-level calls of void members of the same class are seen through (astu.inlined_body), and a function that is only
+    # ever such a helper is not a row of its own: extracting part of a function into a private helper, or inlining one, leaves
+    # the inventory unchanged
+    helper_pats = set()
+    for f in fns.values():
+        if not f.get("rect") or f.get("body") is None:
             continue
+
+        def hv(n, f=f):
+            if n.get("k") == "Expr" and isinstance(strip(n.get("e")), dict) and strip(n["e"]).get("k") == "Call":
+                c = strip(n["e"])
+                cal = by_pat.get(c.get("cpat"))
+                if cal is not None and cal is not f and cal.get("body") is not None and cal.get("rect") == f.get("rect") and cal.get("ret") == "void" \
+                        and len(cal.get("params", [])) == len(c.get("args", [])) and (c.get("obj") is None or strip(c["obj"]).get("k") == "This") \
+                        and not VERBS.match(cal.get("name") or "") and cal.get("access", 2) != 0:
+                    helper_pats.add(cal["pat"])
+        walk(f["body"], hv)
+    rows = {}
+    for pat, fn0 in sorted(fns.items()):
+        if not fn0.get("rect") or fn0.get("body") is None or fn0["pat"] in helper_pats:
+            continue
+        fn = dict(fn0, body=inlined_body(fn0, by_pat, depth=3, keep=lambda nm: bool(VERBS.match(nm))))   # the operations themselves stay calls
         env = flat_env(fn)
         calls = []
         walk(fn["body"], lambda x: calls.append(x) if x.get("k") == "Call" and x.get("cname") and VERBS.match(x["cname"]) and (x.get("crec") or "").startswith("datasketches::") else None)
